@@ -220,8 +220,8 @@ func (r *RequireModule) loadModule(path string) (*js.Object, error) {
 		r.modules[path] = module
 		err := r.loadModuleFile(path, module)
 		if err != nil {
+			r.forget(path, module)
 			module = nil
-			delete(r.modules, path)
 			if errors.Is(err, ModuleFileDoesNotExistError) {
 				err = nil
 			}
@@ -229,6 +229,22 @@ func (r *RequireModule) loadModule(path string) (*js.Object, error) {
 		return module, err
 	}
 	return module, nil
+}
+
+// forget removes a module that failed to load from the file cache and from the request caches, which may
+// already refer to it when it was required again (a dependency cycle) while it was being evaluated.
+func (r *RequireModule) forget(path string, module *js.Object) {
+	delete(r.modules, path)
+	for k, m := range r.resolved {
+		if m == module {
+			delete(r.resolved, k)
+		}
+	}
+	for k, m := range r.nodeModules {
+		if m == module {
+			delete(r.nodeModules, k)
+		}
+	}
 }
 
 func (r *RequireModule) loadModuleFile(path string, jsModule *js.Object) error {
